@@ -220,3 +220,38 @@ func affordable(c *mon.Child, gp *gparsers, T []lexer.Token) bool {
 	}
 	return true
 }
+
+// featInputs returns the explicit inputs a witness grammar carries.
+func featInputs(g *gram.Grammar) [][]string {
+	var out [][]string
+	for _, f := range g.Feat {
+		if strings.HasPrefix(f, "input:") {
+			out = append(out, strings.Fields(f[6:]))
+		}
+	}
+	return out
+}
+
+// witnessExtra adds the hand-written witness grammars to batch 0.
+func witnessExtra(p *mon.Parent, batch int) []*gram.Grammar {
+	if batch != 0 {
+		return nil
+	}
+	var out []*gram.Grammar
+	for _, g := range gram.Witnesses() {
+		usesTok := false
+		for _, pr := range g.Prods {
+			for _, f := range pr.Fields {
+				if f.Kind == "tok" || f.Kind == "toks" {
+					usesTok = true
+				}
+			}
+		}
+		// Token-typed captures are C01's statement (and carry its open finding); C02 judges captured values only.
+		if p.Spec.ID == "C02" && usesTok {
+			continue
+		}
+		out = append(out, g)
+	}
+	return out
+}
